@@ -15,6 +15,18 @@ SEEDS = {
              needs="exactly one of the 768 single-bit corruptions of a k4.seal blob (byte 63 bit 7)", caught_by=["C06 quick (exhaustive single-bit flips of every k4.seal blob)"], missed_by_initially=[]),
  "C07": dict(property="C07", summary="paseto-v4 PBKW rounds the Argon2 memory cost down to a multiple of 4*parallelism KiB before hashing",
              needs="a password-wrap memlimit whose KiB value is not a multiple of 4p (e.g. 9 KiB); defaults and vectors unaffected", caught_by=["C07 quick (random PBKW parameters within budget: library blob vs model, sibling unwrap)"], missed_by_initially=[]),
+ "C04": dict(property="C04", summary="paseto-v4-sodium seal_key/unseal_key turn the fallible ed25519_pk_to_curve25519 conversion into expect(): sealing to an accepted public key that is on the curve but outside the prime-order subgroup panics",
+             needs="a k4.public key that parses (on-curve) but is small-order or has a torsion component (e.g. 32 zero bytes), then LocalKey::seal to it", caught_by=["C04 quick (c04.sweep + c04.generated on paseto-v4-sodium: all-zero / all-ones key bytes of every length are offered to every decoder and accepted keys are used for seal-key)"], missed_by_initially=[]),
+ "C08": dict(property="C08", summary="paseto-v1 key decoders check key.size() == 256 bytes instead of n.bits() == 2048: RSA moduli of 2041..2047 bits are accepted",
+             needs="an RSA key whose modulus has its top bit clear but still fills 256 bytes (e.g. 2047 bits); the library never generates one", caught_by=["C08 quick after strengthening (odd-size RSA keys 2047/2049/2040/2056/1024/3072/4095/4088 bits added to the committed key pool and offered as DER and PEM to all four v1 decoders)"], missed_by_initially=["C08 as first built only offered 2048-bit keys to the 4096-bit decoders and vice versa"]),
+ "C09": dict(property="C09", summary="base64::decode clamps the output to the destination buffer: key-id strings with trailing junk after the 44th character are accepted and re-serialise differently",
+             needs="a KeyId string longer than 44 characters whose final block repeats the id's own final block (random junk matches with probability 2^-12..2^-24)", caught_by=["C09 quick (c09.types: edit scripts over canonical strings: DupSegment / Append on id strings)"], missed_by_initially=[]),
+ "C10": dict(property="C10", summary="paseto-v4 HasKey<Local>::decode takes first_chunk::<32>() instead of requiring exactly 32 bytes: a 64-byte k4.secret body or 33-byte id passes for a local key",
+             needs="key bytes LONGER than 32 offered to the local-key decoder of paseto-v4 (valid strings of other kinds are still rejected by header)", caught_by=["C10 quick after strengthening (c10.keybytes: serialised keys of every kind, ids, key||extra bytes and every length 0..128 offered to each decoder)", "C08 quick (length enumeration 0..128) already caught it"], missed_by_initially=["C10 as first built delegated the wrong-length clause to C08"]),
+ "C11": dict(property="C11", summary="TimeWithLeeway compares whole seconds (duration_since(..).as_secs() > leeway): up to one second beyond the leeway edge is accepted",
+             needs="exp in (now-l-1s, now-l) or nbf in (now+l, now+l+1s), e.g. now-l-1ns", caught_by=["C11 quick (boundary offsets leeway+-1ns against the i128 evaluator, validator and end-to-end)"], missed_by_initially=[]),
+ "C12": dict(property="C12", summary="paseto-v4-sodium local unseal drops the minimum-length check and splits the tag with saturating_sub; libsodium's compare() over a zero-length tag reports equal: a 32-byte body authenticates under any key and reaches decoder and validator",
+             needs="a v4.local token truncated to exactly 32 bytes on the libsodium back end", caught_by=["C12 quick (every truncation length with the recording decoder/validator)", "C02 (truncate-back mutant accepted)"], missed_by_initially=[]),
 }
 for sid, m in SEEDS.items():
     d = f"/verif/seeded/{sid}"
